@@ -8,7 +8,8 @@ RULE = ('cases are context tables as for C03 (exhaustive n*m <= 12 quick / <= 16
         'thorough; Hypothesis fill families beyond). Oracle: each of fast_generate_from, fcbo_dual, iterconcepts, '
         'get_concepts yields a repeat-free sequence whose set of (extent, intent) equals the brute-force concept set '
         '(hence they agree with each other and with context.lattice); wrappers yield Concept named tuples / a '
-        'ConceptList. Emission order is not checked. Non-trivial: >= 4 concepts AND some concept (A, B) and '
+        'ConceptList; one iterator of each generator is half-consumed before, kept alive during, and drained after the '
+        'other calls on the same context, and get_concepts is called twice. Emission order is not checked. Non-trivial: >= 4 concepts AND some concept (A, B) and '
         'property j not in B such that the closure of B+{j} contains a lower-numbered property outside B, or dually '
         'for objects (the situation FCbO\'s canonicity test exists for), as computed by the reference model.')
 ASSUMPTIONS = ['reference model vlib/oracle.py', 'bitsets package behaves as documented']
@@ -51,6 +52,12 @@ def check_one(case, ctx, deep):
                 ('fcbo_dual', lambda: list(algorithms.fcbo_dual(context))),
                 ('iterconcepts', lambda: list(algorithms.iterconcepts(context))),
                 ('get_concepts', lambda: algorithms.get_concepts(context))]
+        # a half-consumed iterator of each generator stays alive while the others run (call history on ONE context)
+        peeks = {}
+        for name, make in (('iterconcepts', algorithms.iterconcepts), ('fast_generate_from', algorithms.fast_generate_from),
+                           ('fcbo_dual', algorithms.fcbo_dual)):
+            it = ctx.call(name + '/iter', plain, make, context)
+            peeks[name] = (it, [ctx.call(name + '/next', plain, next, it)])
         for name, fn in gens:
             out = ctx.call(name, plain, fn)
             pairs = ctx.call(name + '/members', plain,
@@ -67,6 +74,14 @@ def check_one(case, ctx, deep):
                 ctx.check(all(isinstance(c, Concept) for c in out), name + '/type', plain, 'not Concept tuples')
             if name == 'get_concepts':
                 ctx.check(isinstance(out, ConceptList), name + '/type', plain, 'not a ConceptList')
+        for name, (it, got) in peeks.items():
+            got += ctx.call(name + '/resume', plain, list, it)
+            pairs = [(maps.omask(e.members()), maps.pmask(i.members())) for e, i in got]
+            ctx.check(len(set(pairs)) == len(pairs) and set(pairs) == expected, name + '/interleaved', plain,
+                      lambda: f'{name} iterator resumed after other generator calls on the same context yields {sorted(pairs)}')
+        again = ctx.call('get_concepts/again', plain, algorithms.get_concepts, context)
+        ctx.check({(maps.omask(e.members()), maps.pmask(i.members())) for e, i in again} == expected and len(again) == len(expected),
+                  'get_concepts/again', plain, 'second get_concepts() on the same context differs')
         if deep:
             lattice = ctx.call('context.lattice', plain, lambda: context.lattice)
             lat = {(maps.omask(c.extent), maps.pmask(c.intent)) for c in lattice}
